@@ -79,6 +79,19 @@ Theorem C15_request_name_error_iff :
 Proof. exact request_name_error_iff. Qed.
 Print Assumptions C15_request_name_error_iff.
 
+(* Name.String (the key of the builder's cache in the Go code) is injective on non-empty names, so the
+   model's cache, keyed by the label list, makes the same lookups *)
+Theorem C15_name_string_injective :
+  forall n1 n2, n1 <> [] -> n2 <> [] -> wf_name n1 -> wf_name n2 -> name_string n1 = name_string n2 -> n1 = n2.
+Proof. exact name_string_inj. Qed.
+Print Assumptions C15_name_string_injective.
+
+Theorem C15_cache_key_equivalence :
+  forall c k, k <> [] -> wf_name k -> (forall e, In e c -> ce_key e <> [] /\ wf_name (ce_key e)) ->
+    cache_find_str c k = cache_find c k.
+Proof. exact cache_find_str_eq. Qed.
+Print Assumptions C15_cache_key_equivalence.
+
 (* ---- tag obfuscators (randomness is an explicit argument) ---- *)
 Theorem C15_byte_fact : forall n r, r < 64 -> N.land (N.lor r (N.land 192 n)) 63 = r.
 Proof. exact clear_randomize_hi. Qed.
